@@ -227,7 +227,8 @@ CLAIMED = {
               "(A, R, S, k) with k the reduction of SHA-512(dom2 || R || A || M): argument wiring, hash input and "
               "acceptance condition are decided on the real IR."),
         design_ref="DESIGN.md 3 C07, 8",
-        note=("Glue only: the stubs' contracts are C05/C06/C17/C10. Ed448 and the signing side are not posed. "
+        note=("Glue only: the stubs' contracts are C05/C06/C17/C10/C04. Ed448 verification glue (SHAKE256 via uninterpreted Keccak-f) and Ed25519 "
+              "from_seed / sign_raw / sign_ctx / sign_ph glue (deterministic RFC 8032 signature) are included; the Ed448 signing side is not posed. "
               "Uses the in-repo cfg hook pornin_crrl_verif_cut (inline(never) on cut points)."),
     ),
 }
